@@ -214,6 +214,8 @@ theorem dirLeafX : LeafX DirInv where
   setStopping := by unfold setStopping; view_same
   setRestarting := by unfold setRestarting; view_same
   setLoopStop := fun b => by unfold setLoopStop; view_same
+  setSocketEvent := fun b => by unfold setSocketEvent; view_same
+  setSockReady := fun b => by unfold setSockReady; view_same
   clearDone := by unfold clearDone; view_same
   unregister := dir_unregister
   registerNew := fun w _ => dir_registerNew w
